@@ -35,8 +35,17 @@ class SafeExpatParser(expatreader.ExpatParser):  # type: ignore[misc, unused-ign
             f"External references are forbidden (system_id={sysid!r}, public_id={pubid!r})"
         )  # pragma: no cover
 
+    def forbid_external_subset(self, name, sysid, pubid, has_internal_subset):  # type: ignore
+        # For a standalone document the parser doesn't ask for the external
+        # subset, so the reference has to be checked on the DOCTYPE declaration.
+        if sysid is not None or pubid is not None:
+            raise XMLResourceForbidden(
+                f"External references are forbidden (system_id={sysid!r}, public_id={pubid!r})"
+            )
+
     def reset(self) -> None:
         super().reset()
+        self._parser.StartDoctypeDeclHandler = self.forbid_external_subset
         self._parser.EntityDeclHandler = self.forbid_entity_declaration
         self._parser.UnparsedEntityDeclHandler = self.forbid_unparsed_entity_declaration
         self._parser.ExternalEntityRefHandler = self.forbid_external_entity_reference
